@@ -142,6 +142,39 @@ Proof.
   - fold (null_pend o l). rewrite (IH k o Hnd Hn). reflexivity.
 Qed.
 
+
+(* small list facts for the compaction *)
+Lemma filter_all {A} (f : A -> bool) l : (forall x, In x l -> f x = true) -> filter f l = l.
+Proof. induction l as [|a l IH]; simpl; intros H; auto. rewrite (H a (or_introl eq_refl)), IH; auto. Qed.
+
+Lemma filter_none {A} (f : A -> bool) l : (forall x, In x l -> f x = false) -> filter f l = [].
+Proof. induction l as [|a l IH]; simpl; intros H; auto. rewrite (H a (or_introl eq_refl)), IH; auto. Qed.
+
+Lemma filter_split_length {A} (f : A -> bool) l :
+  length (filter f l) + length (filter (fun x => negb (f x)) l) = length l.
+Proof. induction l as [|a l IH]; simpl; auto. destruct (f a); simpl; lia. Qed.
+
+Lemma NoDup_map_on {A B} (f : A -> B) l :
+  (forall x y, In x l -> In y l -> f x = f y -> x = y) -> NoDup l -> NoDup (map f l).
+Proof.
+  induction l as [|a l IH]; simpl; intros Hinj Hnd; [constructor|].
+  inversion Hnd; subst. constructor.
+  - intros Hin. apply in_map_iff in Hin. destruct Hin as [y [Hy Hiny]].
+    assert (y = a) by (apply Hinj; auto). subst y. contradiction.
+  - apply IH; auto.
+Qed.
+
+Lemma cnt_fin_reclaim p ps t : cnt_fin p (map RM.EvReclaim ps ++ t) = cnt_fin p t.
+Proof. induction ps; simpl; auto. Qed.
+
+Lemma somes_abs_pend_of (rm : list gentry) :
+  somes (abs_pend (RP.pend_of rm)) = map (fun e => idn (RM.ptr e)) rm.
+Proof. unfold abs_pend, RP.pend_of, somes. induction rm; simpl; auto. rewrite IHrm. reflexivity. Qed.
+
+Lemma abs_pend_of (rm : list gentry) :
+  abs_pend (RP.pend_of rm) = map Some (map (fun e => idn (RM.ptr e)) rm).
+Proof. unfold abs_pend, RP.pend_of. rewrite !map_map. reflexivity. Qed.
+
 (* ------------------------------------------------------------------ 2. the relation *)
 Section Glue.
   Variable hashf : N -> N.
@@ -522,6 +555,187 @@ Section Glue.
         destruct (HF A s0 (idn q) G1 N1 N2 F0 Hinf ltac:(unfold measure in *; lia)) as (G2 & _ & _ & _ & M2).
         apply (IH (S k) A g2 (fin s0 (idn q)) g' T2 R2 G2 ltac:(unfold measure in *; lia) H).
       + apply (IH (S k) A g s g' T R G Hm H).
+  Qed.
+
+  Local Notation Csweep := (RM.gc_sweep hashf gc_swap gc_primes gc_load_num gc_load_den (RP.d_owns d) (RP.d_spawns d) true true).
+
+  (* the order in which C17's compaction loop hands the reclaimed entries to the pending list, and
+     the mark bits of the table, as inputs of the life-cycle machine's sweep *)
+  Definition c_order (g : RM.gc) : list nat :=
+    match RM.sweep_loop (RM.nslots g + occupied (RM.slots g) + 1) (RM.slots g) 0 (RM.nitems g) [] (RM.evs g) with
+    | Some (_, _, pl, _) => somes (abs_pend pl)
+    | None => []
+    end.
+  Definition c_marks (g : RM.gc) : list nat := abs_marks (RM.slots g).
+
+  (* the table part of the invariant between GC_Mark and the end of the compaction loop *)
+  Record TabM (g : RM.gc) : Prop := {
+    tm_core : RP.Core hashf (RM.slots g);
+    tm_count : RM.nitems g = occupied (RM.slots g);
+    tm_room : RM.nslots g = 0 \/ RM.nitems g < RM.nslots g
+  }.
+
+  Lemma rel_unique_entry g e1 e2 : RP.Core hashf (RM.slots g) ->
+    Holds (RM.slots g) e1 -> Holds (RM.slots g) e2 -> idn (RM.ptr e1) = idn (RM.ptr e2) -> e1 = e2.
+  Proof. intros Hc H1 H2 Hp. apply (RP.Core_UQ_same hashf _ _ _ Hc H1 H2). apply idn_inj. exact Hp. Qed.
+
+  (* GC_Sweep on the concrete table = the sweep of the life-cycle machine with
+     order := c_order g, marks := c_marks g *)
+  Theorem glue_sweep : forall A g s g',
+    TabM g -> RM.pending g = [] -> Rel g s -> GInv A s ->
+    Csweep g = Some g' ->
+    Tab g' /\ Rel g' (sweep true finT (c_order g) (c_marks g) s) /\ RM.pending g' = [].
+  Proof.
+    intros A g s g' TM Hq R G H.
+    pose proof (tm_core g TM) as Hc.
+    assert (Hroom : length (RM.slots g) = 0 \/ occupied (RM.slots g) < length (RM.slots g)).
+    { destruct (tm_room g TM) as [Hz|Hlt]; [left; exact Hz | right; rewrite <- (tm_count g TM); exact Hlt]. }
+    destruct (RP.sweep_loop_exact_thm hashf (RM.slots g) (RM.nitems g) [] (RM.evs g) Hc Hroom)
+      as [l' [rm [Hsl [Hc' [Hlen' [Hh' [Hrm Hocc]]]]]]].
+    unfold RM.gc_sweep in H. unfold c_order. unfold RM.nslots in H |- *. rewrite Hsl in H |- *. simpl app in H |- *.
+    set (order := map (fun e => idn (RM.ptr e)) rm).
+    rewrite somes_abs_pend_of. fold order.
+    set (marks := c_marks g).
+    assert (Hpe : pend s = []) by (rewrite (rel_pend g s R), Hq; reflexivity).
+    (* the reclaimed entries are pairwise distinct *)
+    set (E := entries (RM.slots g)).
+    assert (HndE : NoDup E).
+    { destruct Hc as [_ [_ Huq]]. apply (NoDup_map_inv RM.ptr). apply (UQ_NoDup N gentry RM.ptr _ Huq). }
+    assert (Hnd_rm : NoDup rm).
+    { apply NoDup_incl_NoDup with (l := filter (fun x => negb (RP.keeper x)) E).
+      - apply NoDup_filter. exact HndE.
+      - pose proof (filter_split_length RP.keeper E) as Hsp.
+        assert (Hk : length (entries l') = length (filter RP.keeper E)).
+        { apply Permutation_length. apply NoDup_Permutation.
+          - destruct Hc' as [_ [_ Huq']]. apply (NoDup_map_inv RM.ptr). apply (UQ_NoDup N gentry RM.ptr _ Huq').
+          - apply NoDup_filter. exact HndE.
+          - intros x. rewrite in_entries, Hh', filter_In. unfold E. rewrite in_entries. tauto. }
+        unfold RobinHood.occupied in Hocc. fold E in Hocc. unfold E in Hsp. fold E in Hsp. lia.
+      - intros x Hx. apply filter_In in Hx. destruct Hx as [Hx Hk]. apply Hrm. unfold E in Hx. rewrite in_entries in Hx.
+        split; [exact Hx | apply negb_true_iff; exact Hk]. }
+    assert (Hnd_order : NoDup order).
+    { apply NoDup_map_on; [|exact Hnd_rm]. intros x y Hx Hy Hp.
+      apply (rel_unique_entry g x y Hc); [apply Hrm; exact Hx | apply Hrm; exact Hy | exact Hp]. }
+    (* registered objects and table entries *)
+    assert (Hreg_of : forall y, In y (regids s) -> exists e, Holds (RM.slots g) e /\ idn (RM.ptr e) = y /\ In (y, RM.root e) (reg s)).
+    { intros y Hy. unfold regids in Hy. apply in_map_iff in Hy. destruct Hy as [[y' r] [Hy Hin]]. simpl in Hy. subst y'.
+      pose proof Hin as Hin'. apply (rel_reg g s R) in Hin. apply in_abs_reg in Hin. destruct Hin as [e [He [Hpe' Hre]]].
+      exists e. split; [exact He|]. split; [exact Hpe'|]. rewrite Hre. exact Hin'. }
+    assert (Hin_reg : forall x, Holds (RM.slots g) x -> In (idn (RM.ptr x), RM.root x) (reg s)).
+    { intros x Hx. apply (rel_reg g s R). apply in_abs_reg. exists x. auto. }
+    assert (Hroot_f : forall x, Holds (RM.slots g) x -> is_root s (idn (RM.ptr x)) = RM.root x).
+    { intros x Hx. destruct (RM.root x) eqn:Hr.
+      - unfold is_root. apply existsb_exists. exists (idn (RM.ptr x), true). split; [rewrite <- Hr; apply Hin_reg; exact Hx|].
+        simpl. rewrite Nat.eqb_refl. reflexivity.
+      - unfold is_root. apply not_true_is_false. intros Hex. apply existsb_exists in Hex.
+        destruct Hex as [[y r] [Hin Hb]]. simpl in Hb. apply andb_true_iff in Hb. destruct Hb as [Hy Hr'].
+        apply Nat.eqb_eq in Hy. subst y r.
+        apply (rel_reg g s R) in Hin. apply in_abs_reg in Hin. destruct Hin as [e [He [Hp Hre]]].
+        assert (e = x) by (apply (rel_unique_entry g e x Hc He Hx Hp)). subst e. congruence. }
+    assert (Hmark_f : forall x, Holds (RM.slots g) x -> (existsb (Nat.eqb (idn (RM.ptr x))) marks = RM.marked x)).
+    { intros x Hx. destruct (RM.marked x) eqn:Hm.
+      - apply existsb_eqb_in. unfold marks, c_marks, abs_marks. apply in_map_iff. exists x. split; [reflexivity|].
+        apply filter_In. split; [apply in_entries; exact Hx | exact Hm].
+      - apply not_true_is_false. intros Hex. apply existsb_eqb_in in Hex. unfold marks, c_marks, abs_marks in Hex.
+        apply in_map_iff in Hex. destruct Hex as [e [Hp He]]. apply filter_In in He. destruct He as [He Hme].
+        apply in_entries in He. assert (e = x) by (apply (rel_unique_entry g e x Hc He Hx Hp)). subst e. congruence. }
+    (* the pending list of the life-cycle machine is the concrete one *)
+    assert (Hdead : dead_of order marks s = order).
+    { unfold dead_of, arrange. rewrite (nodup_fixed_point Nat.eq_dec Hnd_order).
+      assert (Ho1 : filter (in_reg s) order = order).
+      { apply filter_all. intros y Hy. unfold order in Hy. apply in_map_iff in Hy. destruct Hy as [x [<- Hx]].
+        apply Hrm in Hx. destruct Hx as [Hx _]. apply in_reg_spec. unfold regids. apply in_map_iff.
+        exists (idn (RM.ptr x), RM.root x). split; [reflexivity | apply Hin_reg; exact Hx]. }
+      rewrite Ho1, filter_app.
+      rewrite filter_all, filter_none; [apply app_nil_r | |].
+      - intros y Hy. apply filter_In in Hy. destruct Hy as [Hy Hno]. fold (regids s) in Hy.
+        destruct (Hreg_of y Hy) as [e [He [Hpe' _]]]. subst y.
+        rewrite (Hroot_f e He), (Hmark_f e He).
+        assert (Hk : RP.keeper e = true).
+        { destruct (RP.keeper e) eqn:Hk; [reflexivity|]. exfalso.
+          assert (Hin : In e rm) by (apply Hrm; auto).
+          apply negb_true_iff in Hno. apply not_true_iff_false in Hno. apply Hno. apply existsb_eqb_in.
+          unfold order. apply in_map_iff. exists e. auto. }
+        unfold RP.keeper in Hk. destruct (RM.marked e), (RM.root e); simpl in *; try reflexivity; discriminate.
+      - intros y Hy. unfold order in Hy. apply in_map_iff in Hy. destruct Hy as [x [<- Hx]].
+        apply Hrm in Hx. destruct Hx as [Hx Hk]. rewrite (Hroot_f x Hx), (Hmark_f x Hx).
+        unfold RP.keeper in Hk. apply orb_false_iff in Hk. destruct Hk as [-> ->]. reflexivity. }
+    unfold sweep. fold (dead_of order marks s). rewrite Hdead.
+    set (r' := filter (fun e => negb (existsb (Nat.eqb (fst e)) order)) (reg s)).
+    set (g1 := RM.mkGC (RM.clear_marks l') (RM.nitems g - length rm) (RM.mitems g) (RM.minptr g) (RM.maxptr g) (RM.running g) (RP.pend_of rm) (RP.reclaim_evs rm ++ RM.evs g)) in *.
+    set (s1 := set_pend (map Some order) (set_reg r' s)).
+    (* the state after the compaction *)
+    assert (T1 : Tab g1).
+    { pose proof (RP.PW_clear_marks l') as Hpw. constructor; simpl.
+      - apply (RP.Core_PW hashf l'); assumption.
+      - rewrite (RP.PW_occupied _ _ Hpw). pose proof (tm_count g TM). lia.
+      - unfold RM.nslots. simpl. rewrite (RP.PW_length _ _ Hpw), Hlen'.
+        destruct Hroom as [Hz|Hlt]; [left; exact Hz | right]. pose proof (tm_count g TM). lia.
+      - apply RP.Clear_clear_marks.
+      - unfold RM.nslots. simpl. rewrite (RP.PW_length _ _ Hpw), Hlen'. intros Hz.
+        destruct rm as [|x rm']; [reflexivity|]. exfalso.
+        assert (Hx : Holds (RM.slots g) x) by (apply Hrm; left; reflexivity).
+        destruct Hx as [i [h Hat]]. pose proof (at_some_lt _ _ _ _ Hat). lia. }
+    assert (Hholds1 : forall x, Holds (RM.slots g1) x <-> exists e, Holds (RM.slots g) e /\ RP.keeper e = true /\ x = RM.unmark e).
+    { intros x. simpl. rewrite RP.clear_marks_smap, RP.Holds_smap. split.
+      - intros [e [He Hx]]. apply Hh' in He. exists e. tauto.
+      - intros [e [He [Hk Hx]]]. exists e. split; [apply Hh'; auto | exact Hx]. }
+    assert (R1 : Rel g1 s1).
+    { constructor; try apply R.
+      - intros x r. unfold s1, r'. simpl reg. rewrite filter_In. simpl fst. rewrite (rel_reg g s R), !in_abs_reg. split.
+        + intros [[e [He [Hpe' Hre]]] Hno]. exists (RM.unmark e). split; [|simpl; auto].
+          apply Hholds1. exists e. split; [exact He|]. split; [|reflexivity].
+          destruct (RP.keeper e) eqn:Hk; [reflexivity|]. exfalso.
+          apply negb_true_iff, not_true_iff_false in Hno. apply Hno. apply existsb_eqb_in. unfold order.
+          apply in_map_iff. exists e. split; [exact Hpe' | apply Hrm; auto].
+        + intros [x0 [Hx0 [Hpe' Hre]]]. apply Hholds1 in Hx0. destruct Hx0 as [e [He [Hk ->]]]. simpl in Hpe', Hre.
+          split; [exists e; auto|]. apply negb_true_iff, not_true_iff_false. intros Hin. apply existsb_eqb_in in Hin.
+          unfold order in Hin. apply in_map_iff in Hin. destruct Hin as [y [Hy Hyin]]. apply Hrm in Hyin. destruct Hyin as [Hyh Hyk].
+          assert (y = e) by (apply (rel_unique_entry g y e Hc Hyh He); congruence). subst y. congruence.
+      - unfold s1. simpl. symmetry. apply abs_pend_of.
+      - intros p. unfold s1. change (fin_count (set_pend (map Some order) (set_reg r' s)) (idn p)) with (fin_count s (idn p)).
+        rewrite (rel_fin g s R p). simpl. unfold RP.reclaim_evs. rewrite cnt_fin_reclaim. reflexivity. }
+    assert (G1 : GInv A s1).
+    { constructor.
+      - unfold s1, r', regids. simpl. rewrite (map_fst_filter (fun x => negb (existsb (Nat.eqb x) order))). apply NoDup_filter, G.
+      - unfold s1, pids. simpl. rewrite somes_map_Some. exact Hnd_order.
+      - intros x Hx. unfold s1, pids. simpl. rewrite somes_map_Some. unfold s1, r', regids in Hx. simpl in Hx.
+        rewrite (map_fst_filter (fun x => negb (existsb (Nat.eqb x) order))), filter_In in Hx. destruct Hx as [_ Hx].
+        intros Hin. apply existsb_eqb_in in Hin. rewrite Hin in Hx. discriminate.
+      - intros x Hx. change (fin_count s1 x) with (fin_count s x). apply (g_fresh _ _ G). left.
+        destruct Hx as [Hx|Hx].
+        + unfold s1, r', regids in Hx. simpl in Hx. rewrite (map_fst_filter (fun x => negb (existsb (Nat.eqb x) order))), filter_In in Hx. tauto.
+        + unfold s1, pids in Hx. simpl in Hx. rewrite somes_map_Some in Hx. unfold order in Hx. apply in_map_iff in Hx.
+          destruct Hx as [e [<- He]]. apply Hrm in He. unfold regids. apply in_map_iff. exists (idn (RM.ptr e), RM.root e).
+          split; [reflexivity | apply Hin_reg; tauto].
+      - apply G.
+      - apply G.
+      - intros x Hx. change (info s1 x) with (info s x). apply (g_info _ _ G). left.
+        destruct Hx as [Hx|Hx].
+        + unfold s1, r', regids in Hx. simpl in Hx. rewrite (map_fst_filter (fun x => negb (existsb (Nat.eqb x) order))), filter_In in Hx. tauto.
+        + unfold s1, pids in Hx. simpl in Hx. rewrite somes_map_Some in Hx. unfold order in Hx. apply in_map_iff in Hx.
+          destruct Hx as [e [<- He]]. apply Hrm in He. unfold regids. apply in_map_iff. exists (idn (RM.ptr e), RM.root e).
+          split; [reflexivity | apply Hin_reg; tauto].
+      - apply G. - apply G. - apply G. - apply G. }
+    (* GC_Resize_Less, mitems, finaliser loop *)
+    destruct (tab_resize_less g1 T1) as [l2 [Hr2 [T2 Hh2]]]. rewrite Hr2 in H.
+    set (g2 := RM.new_mitems (RM.set_slots g1 l2)) in *.
+    assert (T2' : Tab g2) by (apply (tab_fields (RM.set_slots g1 l2)); auto).
+    assert (R2 : Rel g2 (set_mitems (mitems_rule (length r')) s1)).
+    { assert (R2a : Rel (RM.set_slots g1 l2) s1) by (apply (rel_fields g1); auto).
+      pose proof (rel_len (RM.set_slots g1 l2) s1 T2 R2a (g_reg_nodup _ _ G1)) as Hl.
+      constructor; try apply R2a. simpl. unfold mitems_rule. change (reg s1) with r' in Hl. rewrite Hl. reflexivity. }
+    assert (G2 : GInv A (set_mitems (mitems_rule (length r')) s1)) by (constructor; apply G1).
+    destruct (Cfinloop (length (RP.pend_of rm)) 0 (RM.depth g) g2) as [g3|] eqn:Hfl; [|discriminate].
+    inversion H; subst g'. clear H.
+    assert (Hlp : length (RP.pend_of rm) = length order) by (unfold RP.pend_of, order; rewrite !map_length; reflexivity).
+    rewrite Hlp in Hfl.
+    set (s1m := set_mitems (mitems_rule (length r')) s1) in *.
+    destruct (sim_fin_loop finT (S (measure s1m)) (RM.depth g) (finsim_top _ _) (length order) 0 A g2 s1m g3 T2' R2 G2 ltac:(lia) Hfl)
+      as [T3 R3].
+    split; [|split; [|reflexivity]].
+    - apply (tab_fields g3); auto.
+    - constructor; try apply R3. reflexivity.
   Qed.
 
 End Glue.
